@@ -349,6 +349,43 @@ def readCellName (f : Frame) (name : String) (ri : Int) : Except Err Val :=
       | some v => .ok v
       | none => .error .valueError
 
+/-- field `c` of every row -/
+def colOf : List Row → Nat → Except Err (List Val)
+  | [], _ => .ok []
+  | r :: rs, c =>
+    match r[c]?, colOf rs c with
+    | some v, .ok vs => .ok (v :: vs)
+    | _, .error e => .error e
+    | none, _ => .error .indexError
+
+/-- `frame[name]` (`DataSet.__getitem__` with a field name): the column as a 1-D array; h5py's ValueError for an
+    unknown field is turned into IndexError by `H5DataSet.read_data` -/
+def getField (f : Frame) (name : String) : Except Err (List Val) :=
+  match findCol f.cols name with
+  | none => .error .indexError
+  | some c => colOf f.rows c
+
+/-- `frame[lo:hi]`: the rows of the slice (never refused: slices are clamped) -/
+def getSlice (f : Frame) (lo hi : Option Int) : List Row := sliceList f.rows lo hi
+
+def colsOf (rows : List Row) : List Nat → Except Err (List (List Val))
+  | [] => .ok []
+  | k :: ks =>
+    match colOf rows k, colsOf rows ks with
+    | .ok c, .ok cs => .ok (c :: cs)
+    | .error e, _ => .error e
+    | _, .error e => .error e
+
+/-- `read_columns(..., group_by_cols=True)`: one name ⇒ as without grouping; else one list per requested column
+    (a column may be requested twice); the caller gets them as one 2-D array, which keeps the cells as they are when
+    the requested columns have one type (NumPy converts columns of different types to a common one: outside) -/
+def readColumnsGrouped (f : Frame) (sel : Except Err (List Nat)) (lo hi : Option Int) :
+    Except Err (List (List Val)) :=
+  match sel with
+  | .error e => .error e
+  | .ok [k] => pickAll (sliceList f.rows lo hi) [k]
+  | .ok ks => colsOf (sliceList f.rows lo hi) ks
+
 -- ---------------------------------------------------------------------------------------
 -- writes.  Every write returns the frame afterwards and the error raised, if any.
 
